@@ -33,6 +33,7 @@ const (
 	avTuple
 	avPtr    // pointer to a local allocation (identity: context + Alloc)
 	avFAddr  // address of field I of such an allocation
+	avSlice  // a slice of which only the length is known: I exact, or a lower bound when Lo
 	avStruct // the value of such an allocation as a whole (a struct passed or copied by value): its fields are the cells of PC/PA
 )
 
@@ -79,7 +80,7 @@ func (a AV) equal(b AV) bool {
 	switch a.K {
 	case avBool:
 		return a.B == b.B
-	case avInt:
+	case avInt, avSlice:
 		return a.I == b.I && a.Lo == b.Lo
 	case avStr:
 		return a.S == b.S && a.Exact == b.Exact
@@ -117,6 +118,12 @@ func joinAV(a, b AV) AV {
 			lo = b.I
 		}
 		return IntGE(lo)
+	case avSlice:
+		lo := a.I
+		if b.I < lo {
+			lo = b.I
+		}
+		return AV{K: avSlice, I: lo, Lo: true}
 	case avStr:
 		// common prefix
 		n := 0
@@ -175,6 +182,13 @@ func joinInto(dst *env, src env) bool {
 			continue
 		}
 		j := joinAV(v, sv)
+		if v.K == avSlice && v.Lo && j.K == avSlice && j.I < v.I {
+			if j.I >= 1 {
+				j = AV{K: avSlice, I: 1, Lo: true}
+			} else {
+				j = AV{K: avSlice, I: 0, Lo: true}
+			}
+		}
 		if v.K == avInt && v.Lo && j.K == avInt && j.I < v.I {
 			// widening with thresholds 1 and 0: a lower bound that sinks (a down-counting loop, or a state fed from
 			// several partitions) jumps to the next threshold below, and is given up below 0
@@ -617,6 +631,17 @@ func (it *interp) eval(n *Node, v ssa.Value, e env) AV {
 				}
 			}
 		}
+	case *ssa.Slice:
+		// a slice literal: x[:] of a freshly allocated array
+		if al, ok := x.X.(*ssa.Alloc); ok && x.Low == nil && x.High == nil {
+			if at, ok := deref(al.Type()).Underlying().(*types.Array); ok {
+				return AV{K: avSlice, I: at.Len()}
+			}
+		}
+	case *ssa.MakeSlice:
+		if k := it.val(c, x.Len, e); k.K == avInt && !k.Lo {
+			return AV{K: avSlice, I: k.I}
+		}
 	case *ssa.Extract:
 		t := it.val(c, x.Tuple, e)
 		if t.K == avTuple && x.Index < len(t.T) {
@@ -693,6 +718,22 @@ func (it *interp) modelCall(n *Node, cc *ssa.CallCommon, e env) AV {
 			a := it.val(c, cc.Args[0], e)
 			if a.K == avStr && a.Exact {
 				return IntAV(int64(len(a.S)))
+			}
+			if a.K == avSlice {
+				return AV{K: avInt, I: a.I, Lo: a.Lo}
+			}
+		}
+		if b.Name() == "append" && len(cc.Args) == 2 {
+			// only the length is tracked: len(append(s, t...)) = len(s) + len(t)
+			s0, t0 := it.val(c, cc.Args[0], e), it.val(c, cc.Args[1], e)
+			if s0.K == avRef && s0.Nil {
+				s0 = AV{K: avSlice}
+			}
+			if s0.K == avSlice {
+				if t0.K == avSlice {
+					return AV{K: avSlice, I: s0.I + t0.I, Lo: s0.Lo || t0.Lo}
+				}
+				return AV{K: avSlice, I: s0.I, Lo: true}
 			}
 		}
 		return Top
